@@ -1,25 +1,27 @@
 package main
 
 import (
-	"encoding/hex"
 	"fmt"
-	"os"
 
-	pbeditions "google.golang.org/protobuf/internal/testprotos/textpbeditions"
-	"google.golang.org/protobuf/encoding/prototext"
+	test3pb "google.golang.org/protobuf/internal/testprotos/test3"
 	"google.golang.org/protobuf/proto"
+	"google.golang.org/protobuf/types/descriptorpb"
 	"google.golang.org/protobuf/types/dynamicpb"
 )
 
 func main() {
-	for _, h := range os.Args[1:] {
-		b, _ := hex.DecodeString(h)
-		m := &pbeditions.Scalars{}
-		e1 := proto.UnmarshalOptions{NoLazyDecoding: true}.Unmarshal(b, m)
-		m2 := &pbeditions.Scalars{}
-		e2 := proto.Unmarshal(b, m2)
-		d := dynamicpb.NewMessage(m.ProtoReflect().Descriptor())
-		e3 := proto.Unmarshal(b, d)
-		fmt.Println(h, "\n eager:", e1, prototext.MarshalOptions{}.Format(m), "\n lazy:", e2, prototext.MarshalOptions{}.Format(m2), "\n dyn:", e3, prototext.MarshalOptions{}.Format(d))
-	}
+	m := &descriptorpb.MessageOptions{}
+	proto.SetExtension(m, test3pb.E_OptionalStringExt, "a\xff")
+	_, err := proto.Marshal(m)
+	fmt.Println("optional string ext:", err)
+	m2 := &descriptorpb.MessageOptions{}
+	proto.SetExtension(m2, test3pb.E_RepeatedStringExt, []string{"a\xff"})
+	b, err := proto.Marshal(m2)
+	fmt.Printf("repeated string ext: err=%v bytes=%x\n", err, b)
+	fmt.Println("unmarshal generated:", proto.Unmarshal(b, &descriptorpb.MessageOptions{}))
+	m3 := &descriptorpb.MessageOptions{}
+	proto.SetExtension(m3, test3pb.E_RepeatedStringExt, []string{"ok"})
+	bb, _ := proto.Marshal(m3)
+	bb[len(bb)-1] = 0xff
+	fmt.Printf("decode bad bytes %x into generated: %v ; dynamic: %v\n", bb, proto.Unmarshal(bb, &descriptorpb.MessageOptions{}), proto.Unmarshal(bb, dynamicpb.NewMessage(m2.ProtoReflect().Descriptor())))
 }
